@@ -450,6 +450,35 @@ private:"""),
          old="    m_feature_infos(feature) = 0x02;", new="    m_feature_infos(feature) += 0x02;"),
     dict(property="C08", name="should-drop-tests-bit-of-exclusive-states", rule="R-C08-10", file="src/generator.cpp",
          old="    return m_feature_infos(feature) == 0x01;", new="    return (m_feature_infos(feature) & 0x03) != 0;"),
+    dict(property="C09", name="scale-strong-output-by-local-position", rule="R-C09-7", file="src/gboost/function.cpp",
+         old="outputs.vector(i - begin) = m_soutputs.vector(samples(i)) + scale * m_woutputs.vector(samples(i));",
+         new="outputs.vector(i - begin) = m_soutputs.vector(i - begin) + scale * m_woutputs.vector(samples(i));"),
+    dict(property="C09", name="scale-weak-output-by-position", rule="R-C09-7", file="src/gboost/function.cpp",
+         old="outputs.vector(i - begin) = m_soutputs.vector(samples(i)) + scale * m_woutputs.vector(samples(i));",
+         new="outputs.vector(i - begin) = m_soutputs.vector(samples(i)) + scale * m_woutputs.vector(i);"),
+    dict(property="C09", name="scale-group-of-position", rule="R-C09-7", file="src/gboost/function.cpp",
+         old="                const auto group          = m_cluster.group(samples(i));", new="                const auto group          = m_cluster.group(i);"),
+    dict(property="C09", name="scale-unassigned-samples-scaled-by-one", rule="R-C09-7", file="src/gboost/function.cpp",
+         old="const auto scale          = (group < 0) ? 0.0 : x(group);", new="const auto scale          = (group < 0) ? 1.0 : x(group);"),
+    dict(property="C09", name="scale-output-written-at-global-position", rule="R-C09-7", file="src/gboost/function.cpp",
+         old="outputs.vector(i - begin) = m_soutputs.vector(samples(i)) + scale * m_woutputs.vector(samples(i));",
+         new="outputs.vector(i) = m_soutputs.vector(samples(i)) + scale * m_woutputs.vector(samples(i));"),
+    dict(property="C12", name="kfold-training-set-sized-by-chunk", rule="R-C12-1", file="src/splitter/kfold.cpp",
+         old="        indices_t train(samples.size() - valid.size());", new="        indices_t train(samples.size() - chunk);"),
+    dict(property="C05", name="state-inequality-weighted-by-equality-multiplier", rule="R-C05-7", file="src/solver/state.cpp",
+         old="            m_lgx += m_mineq(ineq) * cgrad;", new="            m_lgx += m_meq(ineq) * cgrad;"),
+    dict(property="C05", name="state-equality-counter-bumped-in-both-branches", rule="R-C05-7", file="src/solver/state.cpp",
+         old="            m_lgx += m_mineq(ineq) * cgrad;\n            ++ineq;", new="            m_lgx += m_mineq(ineq) * cgrad;\n            ++ineq;\n            ++eq;"),
+    dict(property="C03", name="rqb-smeared-gradient-read-after-moveto", rule="R-C03-10", file="src/solver/rqb.cpp",
+         old="""            Gn = bundle.smeared_s();
+
+            bundle.moveto(y, gy, fy);""", new="""            bundle.moveto(y, gy, fy);
+            Gn = bundle.smeared_s();
+"""),
+    dict(property="C03", name="fpba-null-step-appends-twice", rule="R-C03-10", file="src/solver/fpba.cpp",
+         old="            bundle.append(y, gy, fy);", new="            bundle.append(y, gy, fy);\n            bundle.append(bundle.x(), bundle.gx(), bundle.fx());"),
+    dict(property="C03", name="fpba-restart-moves-bundle-back", rule="R-C03-10", file="src/solver/fpba.cpp",
+         old="            sequence.reset();", new="            sequence.reset();\n            bundle.moveto(z, gz, fz);"),
     dict(property="C14", name="make-scaling-skipped-for-small-range", rule="R-C14-8", file="src/dataset/stats.cpp",
          old="    if (stats.m_min.size() > 0)\n    {\n        switch (scaling)", new="    if (stats.m_min.size() > 0 && stats.m_div_range.max() < 1e+6)\n    {\n        switch (scaling)"),
     dict(property="C14", name="make-scaling-early-return-without-samples", rule="R-C14-8", file="src/dataset/stats.cpp",
@@ -1255,6 +1284,53 @@ BENIGN = [
          more=[("    m_feature_infos(feature) = 0x02;", "    m_feature_infos(feature) |= 0x02;"),
                ("    return m_feature_infos(feature) == 0x01;", "    return (m_feature_infos(feature) & 0x01) != 0;"),
                ("    if (m_feature_infos(feature) == 0x02)", "    if ((m_feature_infos(feature) & 0x02) != 0)")]),
+    dict(property="C09", name="scale-output-branches-and-named-indices", file="src/gboost/function.cpp",
+         old="""                const auto group          = m_cluster.group(samples(i));
+                const auto scale          = (group < 0) ? 0.0 : x(group);
+                outputs.vector(i - begin) = m_soutputs.vector(samples(i)) + scale * m_woutputs.vector(samples(i));""",
+         new="""                const auto index  = i - begin;
+                const auto sample = samples(i);
+                const auto group  = m_cluster.group(sample);
+                if (group < 0)
+                {
+                    outputs.vector(index) = m_soutputs.vector(sample);
+                }
+                else
+                {
+                    outputs.vector(index) = m_soutputs.vector(sample) + x(group) * m_woutputs.vector(sample);
+                }"""),
+    dict(property="C12", name="kfold-head-tail-copies", file="src/splitter/kfold.cpp",
+         old="""        train.vector().segment(0, valid_begin) = world.segment(0, valid_begin);
+        train.vector().segment(valid_begin, train.size() - valid_begin) =
+            world.segment(valid_end, world.size() - valid_end);""",
+         new="""        train.vector().head(valid_begin)                = world.head(valid_begin);
+        train.vector().tail(train.size() - valid_begin) = world.tail(train.size() - valid_begin);"""),
+    dict(property="C05", name="state-constraint-value-hoisted-negated-test", file="src/solver/state.cpp",
+         old="""        if (::nano::is_equality(constraint))
+        {
+            m_ceq(eq) = ::vgrad(constraint, m_x, cgrad);
+            m_lgx += m_meq(eq) * cgrad;
+            ++eq;
+        }
+        else
+        {
+            m_cineq(ineq) = ::vgrad(constraint, m_x, cgrad);
+            m_lgx += m_mineq(ineq) * cgrad;
+            ++ineq;
+        }""",
+         new="""        const auto cvalue = ::vgrad(constraint, m_x, cgrad);
+        if (!::nano::is_equality(constraint))
+        {
+            m_cineq(ineq) = cvalue;
+            m_lgx += m_mineq(ineq) * cgrad;
+            ++ineq;
+        }
+        else
+        {
+            m_ceq(eq) = cvalue;
+            m_lgx += m_meq(eq) * cgrad;
+            ++eq;
+        }"""),
     dict(property="C14", name="make-scaling-guard-on-other-member", file="src/dataset/stats.cpp",
          old="    if (stats.m_min.size() > 0)\n    {\n        switch (scaling)", new="    if (0 != stats.m_samples.size())\n    {\n        switch (scaling)"),
     dict(property="C14", name="scale-mean-reassociated", file="src/dataset/stats.cpp",
